@@ -65,10 +65,15 @@ class NpzModel(Opaque):
 
 
 class FS:
+    def norm(self, p):
+        """absolute, normalised form of a path string of the modelled process"""
+        return posixpath.normpath(p if p.startswith("/") else self.cwd.rstrip("/") + "/" + p)
+
     def __init__(self):
         self.files: dict = {}        # str path -> content token
         self.dirs: set = {"/"}
         self.log: list = []          # (op, path)
+        self.cwd = "/"               # working directory of the modelled process
         self._tmp = 0
         fs = self
 
@@ -76,7 +81,7 @@ class FS:
             """path bound to this model file system"""
 
             def _s(self):
-                return str(self)
+                return fs.norm(str(self))      # relative paths are taken from the model's working directory
 
             def exists(self):
                 return self._s() in fs.files or self._s() in fs.dirs
@@ -138,10 +143,10 @@ class FS:
                     fs.write(self._s(), EMPTY)
 
             def resolve(self, strict=False):
-                return self
+                return type(self)(self._s())
 
             def absolute(self):
-                return self
+                return type(self)(self._s())
 
             def rmdir(self):
                 s = self._s()
@@ -152,7 +157,7 @@ class FS:
                 fs.dirs.discard(s)
 
             def replace(self, target):
-                s, t = self._s(), str(target)
+                s, t = self._s(), fs.norm(str(target))
                 if s not in fs.files:
                     raise PERaise("FileNotFoundError", s)
                 fs.files[t] = fs.files.pop(s)
@@ -170,6 +175,7 @@ class FS:
         return self.Path(s)
 
     def write(self, s, content):
+        s = self.norm(str(s))
         par = str(pathlib.PurePosixPath(s).parent)
         if par not in self.dirs:
             raise PERaise("FileNotFoundError", f"no such directory: {par}")
@@ -179,6 +185,7 @@ class FS:
         self.log.append(("write", s))
 
     def read(self, s):
+        s = self.norm(str(s))
         if s not in self.files:
             raise PERaise("FileNotFoundError", s)
         self.log.append(("read", s))
@@ -480,7 +487,16 @@ def install(pe, fs: FS):
     pe.ext["os.path.abspath"] = lambda p_, a, k: posixpath.normpath(str(a[0]) if str(a[0]).startswith("/") else "/" + str(a[0]))
     pe.ext["os.path.commonprefix"] = lambda p_, a, k: posixpath.commonprefix([str(x) for x in a[0]])
     pe.ext["os.path.join"] = lambda p_, a, k: posixpath.join(*[str(x) for x in a])
-    pe.ext["pathlib.Path.cwd"] = lambda p_, a, k: fs.Path("/")
+    pe.ext["pathlib.Path.cwd"] = lambda p_, a, k: fs.Path(fs.cwd)
+    pe.ext["os.getcwd"] = lambda p_, a, k: fs.cwd
+
+    def _chdir(p_, a, k):
+        d = fs.norm(str(a[0]))
+        if d not in fs.dirs:
+            raise PERaise("FileNotFoundError", d)
+        fs.cwd = d
+
+    pe.ext["os.chdir"] = _chdir
 
     # file stems: eko.io.inventory.encode hashes the header; the model keeps what matters - equal headers (NumPy scalars hash like
     # the numbers they hold) get equal stems, different headers different ones
